@@ -11,7 +11,9 @@
 (*   stop    - Listener.Stop: close(quit); swap the registry to nil under  *)
 (*             the lock; read l.ln; close the socket; close the            *)
 (*             connections; <-done                                         *)
-(*   drain   - Listener.Drain: close(drain); read l.ln; close the socket   *)
+(*   drain   - Listener.Drain: close(drain); THEN read l.ln; close the      *)
+(*             socket (three steps; Serve's publish-then-re-check guard    *)
+(*             relies on this order)                                       *)
 (* and the environment: peers connecting / closing, the port being held by *)
 (* another process and being freed, the calls of Stop and Drain.           *)
 (*                                                                         *)
@@ -37,6 +39,12 @@
 (*                act variant (limit evaluated in a critical section of    *)
 (*                its own, insert in a second one): it must violate        *)
 (*                LimitRespected - kept as an anti-vacuity mutant          *)
+(*   DrainLatchFirst - Drain raises the drain latch before it looks for    *)
+(*                the socket (the code as it is).  FALSE swaps the two:    *)
+(*                a Drain that looks while Serve is binding sees nil,      *)
+(*                Serve publishes and re-checks before the latch is        *)
+(*                raised, nobody closes the socket - kept as an            *)
+(*                anti-vacuity mutant (must violate DrainStopsAccepting)   *)
 (*   TakeRegistry - Stop takes the registry (l.conns = nil) while it       *)
 (*                copies it (the code as it is).  FALSE is the mutant that *)
 (*                only copies: a connection accepted before the socket is  *)
@@ -50,7 +58,7 @@ CONSTANTS H,              \* connections / peers (strings)
           Limit,          \* cfg.ConnectionLimit, 0 = unlimited
           PortMayBeBusy,  \* the port may initially be held by another process
           WithStop, WithDrain,
-          FixDone, FixPublish, FixStats, AtomicAdd, TakeRegistry,
+          FixDone, FixPublish, FixStats, AtomicAdd, TakeRegistry, DrainLatchFirst,
           Det             \* TRUE: a ready latch wins against the retry timer (the timer needs
                           \* 500 ms; used when behaviours are replayed on the code)
 
@@ -88,7 +96,7 @@ TypeOK ==
   /\ hs \in [H -> HPCs] /\ hconn \in [H -> {"none", "backlog", "open", "closed"}]
   /\ stp \in {"idle", "s0", "s1", "s2", "s3", "s4", "ret"} /\ taken \subseteq H
   /\ sln \in {"unread", "nil", "set"} /\ dln \in {"unread", "nil", "set"}
-  /\ drn \in {"idle", "d0", "d1", "ret"}
+  /\ drn \in {"idle", "d0", "d1", "d2", "ret"}
   /\ cxTotal \in Nat /\ cxActive \in Int /\ cxDestroy \in Nat /\ cxRestricted \in Nat
 
 Init ==
@@ -307,18 +315,28 @@ CallDrain ==
   /\ UNCHANGED <<srv, retried, Latches, sockOpen, lnPub, portBusy, backlog, Registry, hs, hconn,
                  StopVars, dln, Stats>>
 
-\* point listener.Drain (listener.go:265-268): close(drain) once
-Drain0 ==
-  /\ drn = "d0" /\ drain' = TRUE /\ drn' = "d1"
-  /\ UNCHANGED <<srv, retried, quit, done, sockOpen, lnPub, portBusy, backlog, Registry, hs, hconn,
-                 StopVars, dln, Stats>>
+\* Drain's three steps: raise the latch (close(drain) once), look for the socket (l.ln under the lock),
+\* close it if there was one.  The code does them in this order; the hook points listener.Drain and
+\* listener.Drain.readLn (listener.go:284-292) precede the first and the second step, the third has none.
+DrainRead == dln' = IF lnPub THEN "set" ELSE "nil"
 
-\* point listener.Drain.readLn (listener.go:269-273): if l.ln != nil { l.ln.Close() }; return
+Drain0 ==
+  /\ drn = "d0" /\ drn' = "d1"
+  /\ IF DrainLatchFirst THEN drain' = TRUE /\ UNCHANGED dln ELSE DrainRead /\ UNCHANGED drain
+  /\ UNCHANGED <<srv, retried, quit, done, sockOpen, lnPub, portBusy, backlog, Registry, hs, hconn,
+                 StopVars, Stats>>
+
 Drain1 ==
-  /\ drn = "d1" /\ drn' = "ret"
-  /\ dln' = IF lnPub THEN "set" ELSE "nil"
-  /\ CloseSockIf(lnPub)
-  /\ UNCHANGED <<srv, retried, Latches, lnPub, portBusy, Registry, hs, StopVars, Stats>>
+  /\ drn = "d1" /\ drn' = "d2"
+  /\ IF DrainLatchFirst THEN DrainRead /\ UNCHANGED drain ELSE drain' = TRUE /\ UNCHANGED dln
+  /\ UNCHANGED <<srv, retried, quit, done, sockOpen, lnPub, portBusy, backlog, Registry, hs, hconn,
+                 StopVars, Stats>>
+
+\* if ln != nil { ln.Close() }; return
+Drain2 ==
+  /\ drn = "d2" /\ drn' = "ret"
+  /\ CloseSockIf(dln = "set")
+  /\ UNCHANGED <<srv, retried, Latches, lnPub, portBusy, Registry, hs, StopVars, dln, Stats>>
 
 -----------------------------------------------------------------------------
 (* Environment                                                             *)
@@ -372,7 +390,8 @@ StopGate ==
 
 DrainGate ==
   CASE drn = "d0" -> "listener.Drain"
-    [] drn = "d1" -> "listener.Drain.readLn"
+    [] drn = "d1" -> IF DrainLatchFirst THEN "listener.Drain.readLn" ELSE ""
+    [] drn = "d2" -> IF DrainLatchFirst THEN "" ELSE "listener.Drain.readLn"
     [] OTHER      -> ""
 
 -----------------------------------------------------------------------------
@@ -380,7 +399,7 @@ ServeNext == SrvStart \/ SrvCheck \/ SrvBind \/ SrvRetry \/ SrvPublish \/ SrvRec
              \/ SrvAccept \/ SrvAcceptErr \/ SrvWait \/ SrvCloseDone
 HandlerNext(h) == HAdd(h) \/ HAddCheck(h) \/ HAddInsert(h) \/ HExit(h) \/ HRemove(h)
 StopNext == Stop0 \/ Stop1 \/ Stop2 \/ Stop3 \/ Stop4
-DrainNext == Drain0 \/ Drain1
+DrainNext == Drain0 \/ Drain1 \/ Drain2
 
 ProxyNext == ServeNext \/ (\E h \in H : HandlerNext(h)) \/ StopNext \/ DrainNext
 EnvNext == (\E h \in H : PeerConnect(h) \/ PeerClose(h)) \/ PortFreed \/ CallStop \/ CallDrain
@@ -421,6 +440,9 @@ DrainKeepsEstablished ==
 DrainStopsAccepting ==
   [][drn = "ret" => \A h \in H : hs[h] = "none" => hs'[h] = "none"]_vars
 
+\* a drained listener that sits in its accept loop has no socket to accept from
+DrainClosesSocket == (drn = "ret" /\ srv = "accept") => ~sockOpen
+
 \* never more than Limit connections registered / served at the same time
 Serving == {h \in H : hs[h] = "serve"}
 LimitRespected == Limit > 0 => Cardinality(conns) <= Limit /\ Cardinality(Serving) <= Limit
@@ -447,6 +469,7 @@ W_StopWhileAccepting == stp = "s1" /\ srv = "accept" /\ sockOpen
 W_DrainBeforeBind == drain /\ ~quit /\ srv \in {"notStarted", "check"} /\ ~retried
 W_DrainDuringRetry == drain /\ ~quit /\ (srv = "retryWait" \/ (srv = "check" /\ retried))
 W_DrainBetweenBindAndPublish == dln = "nil" /\ srv \in {"bind", "publish"} /\ ~portBusy
+W_DrainDuringBind == drn \in {"d0", "d1", "d2"} /\ srv \in {"bind", "publish", "recheck"} /\ ~portBusy
 W_DrainThenStop == drn = "ret" /\ stp = "s0"
 W_DrainWithActiveConns == drn = "d1" /\ conns # {}
 W_LimitReached == \E h \in H : hs[h] = "add" /\ ~connsNil /\ AtLimit
@@ -457,7 +480,7 @@ WindowNames == <<"W_StopBeforeServe", "W_StopBeforeBind", "W_StopDuringRetry",
                  "W_StopBetweenBindAndPublish", "W_StopWithActiveConns", "W_StopWhileAccepting",
                  "W_DrainBeforeBind", "W_DrainDuringRetry", "W_DrainBetweenBindAndPublish",
                  "W_DrainThenStop", "W_DrainWithActiveConns", "W_LimitReached", "W_AddAfterStop",
-                 "W_BacklogAtClose">>
+                 "W_BacklogAtClose", "W_DrainDuringBind">>
 WindowHolds(n) ==
   CASE n = "W_StopBeforeServe" -> W_StopBeforeServe
     [] n = "W_StopBeforeBind" -> W_StopBeforeBind
@@ -473,6 +496,7 @@ WindowHolds(n) ==
     [] n = "W_LimitReached" -> W_LimitReached
     [] n = "W_AddAfterStop" -> W_AddAfterStop
     [] n = "W_BacklogAtClose" -> W_BacklogAtClose
+    [] n = "W_DrainDuringBind" -> W_DrainDuringBind
 Windows == {WindowNames[i] : i \in {j \in 1..Len(WindowNames) : WindowHolds(WindowNames[j])}}
 
 =============================================================================
